@@ -64,10 +64,24 @@ def eff(want, given):
     return "".join(c for c in "JRWPASDO" if c in want and c in given)
 
 
+def restore_sessions(sc):
+    """a scenario read back from a replay / corpus file: sessions and user count are in its head lines"""
+    for l in sc.head:
+        w = l.split()
+        if w and w[0] == "sess":
+            sc.sessions[int(w[1])] = int(w[2])
+        elif w and w[0] == "user":
+            sc.nusers = max(sc.nusers, int(w[1]))
+    return sc
+
+
 def run_stateful(ctx, profiles, monitor, proj, rule, trusted, corpus=(), extra_files=(), taint=None,
-                 counts=None, nontrivial=None):
+                 counts=None, nontrivial=None,
+                 extra_scns=None, extra_cov=None):
     """profiles: list of (profile, faults, share); monitor(sc, views)-> [(law, opindex, detail)];
-    proj: dict(ops=set of op kinds or None, frame=callable or None, line=callable or None, keys=tuple)"""
+    proj: dict(ops=set of op kinds or None, frame=callable or None, line=callable or None, keys=tuple);
+    extra_scns(ctx, total) -> [Scn]: the plugin's own (e.g. model-guided) scenarios, generated after the runner is built;
+    extra_cov(scns, impl) -> dict merged into the evidence coverage (measured on the implementation's trace)"""
     ctx.coq_props(extra_files)
     vlib.proof_violation(ctx)
     ok, out = ctx.build_runner()
@@ -88,7 +102,7 @@ def run_stateful(ctx, profiles, monitor, proj, rule, trusted, corpus=(), extra_f
         sc = T.Scn(rp["replay"]["head"][0].split()[1])
         sc.head = rp["replay"]["head"]
         sc.ops = [tuple(o) for o in rp["replay"]["ops"]]
-        scns = [sc]
+        scns = [restore_sessions(sc)]
     else:
         cdir = os.path.join(vlib.ROOT, "corpus", ctx.pid)
         if os.path.isdir(cdir):
@@ -97,9 +111,11 @@ def run_stateful(ctx, profiles, monitor, proj, rule, trusted, corpus=(), extra_f
                 sc = T.Scn("c_" + f.split(".")[0])
                 sc.head = [("scn %s " % sc.id + " ".join(rp["head"][0].split()[2:]))] + rp["head"][1:]
                 sc.ops = [tuple(o) for o in rp["ops"]]
-                scns.append(sc)
+                scns.append(restore_sessions(sc))
         for pi, (profile, faults, share) in enumerate(profiles):
             scns += T.gen_scenarios(ctx, max(1, int(total * share)), profile, faults, prefix="p%d_" % pi)
+        if extra_scns:
+            scns += extra_scns(ctx, total)
     t0 = time.time()
     rc, impl, log = T.run_impl(ctx, scns)
     t_impl = time.time() - t0
@@ -168,6 +184,10 @@ def run_stateful(ctx, profiles, monitor, proj, rule, trusted, corpus=(), extra_f
                 mism.append((sc, k, d))
                 break
     searched = 0
+    # a failing law that is a recorded known finding must not hide a correspondence mismatch
+    known = set(f["key"] for f in ctx.load_findings() if f["property"] == ctx.pid)
+    nfails_all = len(fails)
+    fails = [f for f in fails if f[1] not in known]
     if mism and not fails:
         # failing-input search: shrink the disagreeing history, then mutate around it with the monitor as oracle
         sc, k, d = min(mism, key=lambda x: len(x[0].ops))
@@ -190,6 +210,8 @@ def run_stateful(ctx, profiles, monitor, proj, rule, trusted, corpus=(), extra_f
                 for c in pool:
                     if c.id in im2 and len(im2[c.id]) == len(c.ops):
                         for law, kk, detail in mon(c, im2[c.id]):
+                            if law in known:
+                                continue
                             ctx.violation("monitor", law, "law %s fails on the implementation's trace: %s" % (law, detail),
                                           {"head": c.head, "ops": c.ops[:kk + 1], "law": law, "detail": detail,
                                            "found_by": "search near a correspondence mismatch"})
@@ -224,12 +246,13 @@ def run_stateful(ctx, profiles, monitor, proj, rule, trusted, corpus=(), extra_f
         "evaluations": len(scns), "distinct_nontrivial": len(nt), "rule": rule,
         "operations_executed": nops,
         "samples": [{"head": sc.head, "ops": sc.ops, "impl_frames_last_op": impl[sc.id][-1]["frames"] if impl[sc.id] else []} for sc in scns[:2]],
-        "traces_validated_against_impl": len(scns), "correspondence_mismatches": len(mism), "monitor_failures": len(fails),
+        "traces_validated_against_impl": len(scns), "correspondence_mismatches": len(mism), "monitor_failures": nfails_all,
         "search_pool": searched,
         "input_distribution": {"op_kinds": kinds, "ctrl_codes": codes, "faults": faults_seen,
                                "users_per_scenario": sorted(set(sc.nusers for sc in scns)),
                                "ops_per_scenario_max": max(len(sc.ops) for sc in scns)},
         "impl_wall_s": round(t_impl, 1),
+        **(extra_cov(scns, impl) if extra_cov else {}),
         "trusted_base": trusted + [
             "harness/overlay/server/zz_verif_topic_test.go: drives the real Hub/Topic/Session code through Session.dispatchRaw, quiescence by goroutine-state snapshot",
             "harness/overlay/server/db/memverif: in-memory adapter written from db/mysql/adapter.go (store contract modelled, not verified; the SQL engines are not run)",
